@@ -294,7 +294,11 @@ class _KeyShadow(ast.NodeTransformer):
             self.n += 1
             src = ast.unparse(node)
             new = self.rng.choice([f"{{1: 0, 0 + 1: {src}}}[1]", f"{{'a': 0, 'a' + '': {src}}}['a']", f"{{'a': 0, 'a' + '': {src}}}.a",
-                                   f"{{0 + 1: 0, 1: {src}}}[1]", f"{{'k': 0, 2: 1, 1 + 1: {src}}}[2]"])
+                                   f"{{0 + 1: 0, 1: {src}}}[1]", f"{{'k': 0, 2: 1, 1 + 1: {src}}}[2]",
+                                   # the same CONSTANT key twice: Python keeps the value of the last entry
+                                   f"{{'a': 0, 'a': {src}}}.a", f"{{'a': 0, 'a': {src}}}['a']", f"{{1: 0, 1: {src}}}[1]",
+                                   f"{{1: 0, True: {src}}}[1]", f"{{'a': 0, 'b': 1, 'a': {src}, 'c': 2}}.a",
+                                   f"{{'a': {src}, 'b': 1, 'b': 2}}.a"])
             return ast.parse(new, mode="eval").body
         return node
 
